@@ -44,7 +44,7 @@ ENGINES = {
         'dir': 'sim/heap',
         'common': [('heap_main.cpp', 'heap_main.o', ['-std=c++17', '-O1', '-pthread'])],
         'avel_tus': [('heap_ops.cpp', ['-DHEAP_PART=%d' % k, '-fno-builtin-malloc', '-fno-builtin-free', '-fno-builtin-calloc', '-fno-builtin-realloc',
-                                       '-fno-builtin-aligned_alloc', '-fno-builtin-posix_memalign'], 'heap_ops_%d.o' % k) for k in range(6)],
+                                       '-fno-builtin-aligned_alloc', '-fno-builtin-posix_memalign'], 'heap_ops_%d.o' % k) for k in range(8)],
         'link': ['-pthread', '-Wl,--wrap=malloc,--wrap=free,--wrap=calloc,--wrap=realloc,--wrap=posix_memalign,--wrap=aligned_alloc'],
         'configs': C.heap_configs,
         'seeded_runs': {'quick': 200000, 'thorough': 5000000},
